@@ -67,6 +67,18 @@ CHECKS = {
         "note": "Decided on the repaired scan (fix: 0562141). Trusted: Coq kernel+VM; num-bigint panic conditions as modelled; harness. No axioms (MathComp ssreflect used in primes/, axiom-free).",
         "technique": "Coq proof (total functions with explicit Panic outcome; invariants; primality certificate) + catch_unwind oracle + model/implementation correspondence",
     },
+    "C15": {
+        "text": "PARTIAL. Theorems (Coq) about the data flow of randomness through the model with an explicit tape: each documented drawing call consumes exactly the next w tape bytes (32 salt, 32 b, 32 a, 16 login challenge drawn only on acceptance, 16 refresh after EVERY reconnect attempt, 16 client challenge, 4/4/8-byte seeds little-endian, 16-byte salts) and hands them out verbatim (no masking or reduction; the little-endian reading is injective), draws are consecutive and disjoint for any sequence of calls, and the Uniform(0..=9) rejection sampler yields a digit < 10 for every accepted 32-bit word. What no theorem can say - that rand::thread_rng produces fresh, unpredictable bytes - is examined by a statistical test (no repeats, per-byte uniformity) and named as trusted.",
+        "design_ref": "DESIGN.md §3 C15",
+        "note": "Level is proof for the flow of drawn bytes, test for the RNG's quality. Trusted: Coq kernel+VM; rand's UniformInt sampler as modelled; thread_rng itself. No axioms.",
+        "technique": "Coq proof of tape linearity over the API model + tape-injection correspondence + statistical test (labelled as a test)",
+    },
+    "C17": {
+        "text": "Theorems (Coq, all file contents, salts, keys): Windows, Mac and single-buffer functions all equal SHA1(key | HMAC-SHA1(salt, files concatenated in argument order)); any two ways of distributing the same bytes over the five arguments (or one buffer) give the same result; reconnect check = SHA1(salt | 20 zero bytes); changing files, salt or key changes the result or exhibits a SHA-1 collision (binding through HMAC's two nested hashes, xor pads injective). Tied to the code through the concrete SHA-1/HMAC in Coq on cuts around all padding boundaries.",
+        "design_ref": "DESIGN.md §3 C17",
+        "note": "Trusted: Coq kernel+VM; SHA-1/HMAC modelled incl. the streaming-update = concatenation behaviour of the hmac crate. No axioms.",
+        "technique": "Coq proof (algebra of list concatenation; collision-form binding) + model/implementation correspondence via vm_compute",
+    },
 }
 
 DONE = set(CHECKS)
